@@ -17,12 +17,12 @@ Definition modelled_panic_sites : list site := [
   (* Likely.lang_from_parts: explicit `Panic 2` when the table value has no language; unreachable by C07_values_full_extend *)
   ("unic-langid-impl/src/likelysubtags/mod.rs", "lang_from_parts", "unwrap", ".unwrap()");
   (* TABLE[r] with r from binary_search_by_key(..).ok(): in bounds by the contract of binary_search; modelled as assoc *)
-  ("unic-langid-impl/src/likelysubtags/mod.rs", "maximize", "index", "tables::LANG_ONLY[r]");
-  ("unic-langid-impl/src/likelysubtags/mod.rs", "maximize", "index", "tables::LANG_REGION[r]");
-  ("unic-langid-impl/src/likelysubtags/mod.rs", "maximize", "index", "tables::LANG_SCRIPT[r]");
-  ("unic-langid-impl/src/likelysubtags/mod.rs", "maximize", "index", "tables::REGION_ONLY[r]");
-  ("unic-langid-impl/src/likelysubtags/mod.rs", "maximize", "index", "tables::SCRIPT_ONLY[r]");
-  ("unic-langid-impl/src/likelysubtags/mod.rs", "maximize", "index", "tables::SCRIPT_REGION[r]");
+  ("unic-langid-impl/src/likelysubtags/mod.rs", "maximize", "index", "tables::LANG_ONLY[_]");
+  ("unic-langid-impl/src/likelysubtags/mod.rs", "maximize", "index", "tables::LANG_REGION[_]");
+  ("unic-langid-impl/src/likelysubtags/mod.rs", "maximize", "index", "tables::LANG_SCRIPT[_]");
+  ("unic-langid-impl/src/likelysubtags/mod.rs", "maximize", "index", "tables::REGION_ONLY[_]");
+  ("unic-langid-impl/src/likelysubtags/mod.rs", "maximize", "index", "tables::SCRIPT_ONLY[_]");
+  ("unic-langid-impl/src/likelysubtags/mod.rs", "maximize", "index", "tables::SCRIPT_REGION[_]");
   (* Subtags.variant_from_bytes: `Panic 1`, behind the slen == 4 guard *)
   ("unic-langid-impl/src/subtags/variant.rs", "from_bytes", "index", "v[0]");
   (* Vec::remove / insert at the index binary_search returned: in bounds by contract (Ops.bsearch) *)
